@@ -38,6 +38,10 @@ type HistOpts struct {
 	// partitions, then Merge: merged blocks whose range must be the hull of
 	// three or more source ranges. Queries are (mostly) prefilter-only.
 	MinMaxHeavy bool
+	// Faults: add 1-3 one-shot store failures (CreateFile/Write/Close/Update at
+	// generated ordinals) to the history: failed flushes and merges between
+	// successful ones
+	Faults bool
 }
 
 func drawMinMaxHistory(t *rapid.T, o HistOpts) History {
@@ -101,6 +105,16 @@ func mergeFriendly(t *rapid.T, c EngCfg) EngCfg {
 }
 
 func drawHistory(t *rapid.T, o HistOpts) History {
+	if o.Faults {
+		o2 := o
+		o2.Faults = false
+		o2.Ext = false
+		h := drawHistory(t, o2)
+		for i := rapid.IntRange(1, 3).Draw(t, "nhistfaults"); i > 0; i-- {
+			h.Faults = append(h.Faults, HistFault{Kind: pick(t, "hfkind", []string{"Write", "Write", "Close", "CreateFile", "Update"}), N: rapid.IntRange(0, 12).Draw(t, "hfn")})
+		}
+		return h
+	}
 	if o.MinMaxHeavy {
 		return drawMinMaxHistory(t, o)
 	}
